@@ -1,7 +1,7 @@
 """C09 - `--` ends option processing; strict positionals honour it."""
 from vlib import *
 import defs as D, cmdline_sig
-from cmdline_check import run_cmdline_property
+from cmdline_check import run_cmdline_property, merge_cov
 
 
 def families(tier):
@@ -15,6 +15,11 @@ def run(v):
     cov = run_cmdline_property(v, families(v.tier), "MC_CmdLine_design.cfg", signature=cmdline_sig.signature,
                                driver={"defs": big, "n": 15000 if v.tier == "quick" else 300000, "maxlen": 12, "mutate": 0.8,
                                        "extras": ("help",)})
+    # defaulted positionals: a positional that finds no word of its own leaves every word where it is
+    q = v.tier == "quick"
+    fcov = run_cmdline_property(v, D.pos_fb_family(SEED + 91, 30 if q else 60, maxlen=3 if q else 4, budget=2500 if q else 20000), None,
+                                signature=cmdline_sig.signature, name="C09f")
+    cov = merge_cov(cov, fcov, "defaulted")
     cov["rule"] = ("0..3 positionals of every strictness/arity with 0..2 named items; all lines up to maxlen with `--` at every "
                    "position (also twice), dash-looking items, help, names and `--name=--` on both sides; DashDash checked by TLC")
     cov["exhaustive"] = True
